@@ -39,6 +39,9 @@ def axioms():
     ax.append(('L-pair', z3.ForAll([A, i, j, a, b, L], z3.Implies(z3.And(0 <= i, j == i + 1, j < L, merge(a, b) == merge(A[i], A[j])),
                                                                   dense(z3.Store(z3.Store(A, i, a), j, b), L) == dense(A, L)),
                                   patterns=[dense(z3.Store(z3.Store(A, i, a), j, b), L)])))
+    ax.append(('L-pair-rev', z3.ForAll([A, i, j, a, b, L], z3.Implies(z3.And(0 <= j, j == i - 1, i < L, merge(b, a) == merge(A[j], A[i])),
+                                                                      dense(z3.Store(z3.Store(A, i, a), j, b), L) == dense(A, L)),
+                                      patterns=[dense(z3.Store(z3.Store(A, i, a), j, b), L)])))
     # L-last (T lemma L-last + Lean VT.foldl_last_scale / foldl_site_map): boundary site against the dummy 1x1x1 tensor
     t = z3.Const('t', Ten)
     ax.append(('L-last-right-end', z3.ForAll([A, a, t, L, j], z3.Implies(z3.And(L >= 1, j == L - 1, merge(a, t) == merge(A[j], ONE), dl(t) == 1, dr(t) == 1, dp(t) == 1),
@@ -48,8 +51,8 @@ def axioms():
                                                                         vscale(dense(z3.Store(A, j, a), L), val(t)) == dense(A, L)),
                                             patterns=[z3.MultiPattern(dense(z3.Store(A, j, a), L), merge(t, a))])))
     # L-scale with c = -1 (T lemma L-scale + Lean VT.foldl_site_map)
-    ax.append(('L-neg', z3.ForAll([A, k, L], z3.Implies(z3.And(0 <= k, k < L), dense(z3.Store(A, k, neg(A[k])), L) == vscale(dense(A, L), -1)),
-                                  patterns=[dense(z3.Store(A, k, neg(A[k])), L)])))
+    ax.append(('L-neg', z3.ForAll([A, k, L, a], z3.Implies(z3.And(0 <= k, k < L), dense(z3.Store(A, k, neg(a)), L) == vscale(dense(z3.Store(A, k, a), L), -1)),
+                                  patterns=[dense(z3.Store(A, k, neg(a)), L)])))
     ax.append(('neg-structure', z3.ForAll([a], z3.And(liso(neg(a)) == liso(a), riso(neg(a)) == riso(a), dl(neg(a)) == dl(a), dr(neg(a)) == dr(a), dp(neg(a)) == dp(a)))))
     q0, q1, q2 = z3.Consts('q0 q1 q2', QVs)
     ax.append(('neg-sparse', z3.ForAll([a, q0, q1, q2], sp(neg(a), q0, q1, q2) == sp(a, q0, q1, q2))))
@@ -294,11 +297,13 @@ def orthonormalize_contract(cls, mode):
 
     def post(ret, env, st):
         slf = env['self']; A = slf.A.arr; qD = slf.qD.arr
+        sp_ax = ['L-last-right-end', 'L-last-left-end', 'vscale-assoc', 'L-neg', 'vscale-one', 'ONE-dims']
         cl = [('nrm_nonneg', ret >= 0),
-              ('state_preserved', vscale(dense(A, L), ret) == dense(A0, L)),
+              ('state_preserved', vscale(dense(A, L), ret) == dense(A0, L), sp_ax),
               ('all_sites_isometric', z3.ForAll([k], z3.Implies(z3.And(0 <= k, k < L), isoP(A[k])))),
               ('unit_norm', vnorm(dense(A, L)) == 1),
-              ('nrm_is_norm_of_original', vnorm(dense(A0, L)) == ret),
+              ('nrm_is_norm_of_original', z3.Implies(z3.And(vscale(dense(A, L), ret) == dense(A0, L), vnorm(dense(A, L)) == 1, ret >= 0), vnorm(dense(A0, L)) == ret),
+               ['vnorm-scale']),
               ('class_invariant', z3.And(WF(A, qD, qd, L), z3.ForAll([k], z3.Implies(z3.And(0 <= k, k + 1 < L), dr(A[k]) == dl(A[k + 1]))),
                                          qlen(qD[0]) == 1, qlen(qD[L]) == 1)),
               ('bond_bound', z3.ForAll([k], z3.Implies(z3.And(0 <= k, k < L),
@@ -316,6 +321,8 @@ def orthonormalize_contract(cls, mode):
 
 
 def verify_contract(spec, props):
+    from . import smt
+    smt.EXTERNAL[0] = True          # quantified axioms: run every query in a killable z3 child process
     fn = spec['fn']; out = []; t0 = time.time()
     tag = f"[{spec['mode']}]"
     fnode = loader.function(fn)
@@ -347,8 +354,17 @@ def verify_contract(spec, props):
     agg = {}
     for s in finals:
         s.pc += sparse_transfer(s)
-        for name, f in spec['post'](s.ret, s.env, s):
-            r = solver.implied([p for p in s.pc if is_z(p)], f, final=True)
+        named = dict(axioms())
+        for item in spec['post'](s.ret, s.env, s):
+            name, f = item[0], item[1]
+            if len(item) > 2 and item[2] is not None:
+                # lemma selection: only the named axioms are given to the solver for this clause
+                rr, _ = check_unsat([named[a] for a in item[2]] + [p for p in s.pc if is_z(p)] + [z3.Not(f)])
+                r = True if rr == 'unsat' else None
+                if r is None:
+                    r = solver.implied([p for p in s.pc if is_z(p)], f, final=True)
+            else:
+                r = solver.implied([p for p in s.pc if is_z(p)], f, final=True)
             agg.setdefault(name, []).append(r)
     for name, rs in agg.items():
         status = 'discharged' if all(r is True for r in rs) else 'refuted' if any(r is False for r in rs) else 'undecided'
